@@ -43,7 +43,10 @@ class V:
 MODES = ["none", "query", "rule"]
 # blocks that also carry a query of their own (rule_mode(q) is how conclusions are added to q): the statement names the
 # three modes; these spellings of the same modes are compared like them
-MODES_WITH_QUERY = ["query_of", "rule_of", "nested_of"]
+MODES_WITH_QUERY = ["query_of", "rule_of", "nested_of", "plain_with_other", "again_outside_after_own_block"]
+# plain_with_other: evaluated inside a plain `with other_query:` block (no symbolic_mode around it: the mode stays off, the
+#   other query is the open expression); again_outside_after_own_block: the query was opened once as an (empty)
+#   `with symbolic_mode(q): pass` block, then evaluated outside every block
 
 
 def plan(tier, seed):
@@ -114,6 +117,17 @@ def _ambient(mode, q=None):
         stack.enter_context(_ambient("query_of"))
         stack.enter_context(_ambient("rule_of", q))
         return stack
+    if mode == "again_outside_after_own_block":
+        from entity_query_language import symbolic_mode as _sm
+        with _sm(q):
+            pass
+        return contextlib.nullcontext()
+    if mode == "plain_with_other":
+        from entity_query_language import an, entity, let, symbolic_mode as _sm
+        with _sm():
+            o = let(D.P, [D.P(a=1)])
+            other = an(entity(o, o.a > 0))
+        return other
     if mode in ("query_of", "rule_of"):
         from entity_query_language import an, entity, let
         if q is not None:       # the block of the very query that is evaluated inside it
